@@ -257,12 +257,13 @@ struct Model {
         case ACT_THROW_INT: { std::ostringstream l; l << 'R' << chosen; o.clog.push_back(l.str()); } status = 1; k << "t:" << chosen; break;
         case ACT_THROW_STD: { std::ostringstream l; l << 'R' << chosen; o.clog.push_back(l.str()); } status = 1; k << "e:t" << chosen; break;
         case ACT_NONE: k << "void"; break;
+        case ACT_RETCAP: k << "cref:" << 700 + chosen; break;
       }
       result = k.str();
     }
     if (tracing) {
       std::string t = tr_prefix;
-      if (status == 0) { if (sh.act == ACT_RET) { std::ostringstream k; k << "-> " << 100 + chosen; t += k.str(); } else if (sh.act == ACT_RETREF) { std::ostringstream k; k << "-> " << 500 + chosen; t += k.str(); } }
+      if (status == 0) { if (sh.act == ACT_RET) { std::ostringstream k; k << "-> " << 100 + chosen; t += k.str(); } else if (sh.act == ACT_RETREF) { std::ostringstream k; k << "-> " << 500 + chosen; t += k.str(); } else if (sh.act == ACT_RETCAP) { std::ostringstream k; k << "-> " << 700 + chosen; t += k.str(); } }
       else if (result.compare(0, 2, "e:") == 0) t += "threw exception: what() = " + result.substr(2);
       else t += "threw unknown exception";
       o.traces.push_back(t);
